@@ -243,8 +243,8 @@ func runOne(base string, p plan) (o outcome) {
 	if !got {
 		select {
 		case res = <-done:
-		case <-time.After(20 * time.Second):
-			fail("launch-did-not-return", "Launch has not returned 20s after the daemon called Done()")
+		case <-time.After(6 * time.Second):
+			fail("launch-did-not-return", "Launch has not returned 6s after the daemon called Done()")
 			return
 		}
 	}
@@ -384,6 +384,15 @@ func main() {
 		wg.Wait()
 		outs = append(outs, res...)
 		i = j
+		nv := 0
+		for _, o := range outs {
+			if o.Viol != nil {
+				nv++
+			}
+		}
+		if nv >= 4 {
+			break // enough to report; failing launches are slow (they wait for time-outs)
+		}
 	}
 	type stats struct {
 		Launches   int            `json:"launches"`
